@@ -843,28 +843,28 @@ func (r *RefineLoad) Decode(d *Decoder) error {
 
 	r.GasUsed = Gas(gasUsed)
 
-	imports, err := d.DecodeInteger()
+	imports, err := d.DecodeIntegerBits(16)
 	if err != nil {
 		return err
 	}
 
 	r.Imports = U16(imports)
 
-	extrinsicCount, err := d.DecodeInteger()
+	extrinsicCount, err := d.DecodeIntegerBits(16)
 	if err != nil {
 		return err
 	}
 
 	r.ExtrinsicCount = U16(extrinsicCount)
 
-	extrinsicSize, err := d.DecodeInteger()
+	extrinsicSize, err := d.DecodeIntegerBits(32)
 	if err != nil {
 		return err
 	}
 
 	r.ExtrinsicSize = U32(extrinsicSize)
 
-	exports, err := d.DecodeInteger()
+	exports, err := d.DecodeIntegerBits(16)
 	if err != nil {
 		return err
 	}
@@ -922,7 +922,7 @@ func (w *WorkReport) Decode(d *Decoder) error {
 
 	// Work report core index is compact
 	// https://github.com/davxy/jam-test-vectors/commit/fed98559dabaa7058d7f9d83cb8c9353bd78d544
-	coreIndex, err := d.DecodeInteger()
+	coreIndex, err := d.DecodeIntegerBits(16)
 	if err != nil {
 		return err
 	}
@@ -1650,7 +1650,7 @@ func (c *CoreActivityRecord) Decode(d *Decoder) error {
 	var err error
 
 	cLog(Cyan, "Decoding DALoad")
-	daLoad, err := d.DecodeInteger()
+	daLoad, err := d.DecodeIntegerBits(32)
 	if err != nil {
 		return err
 	}
@@ -1658,7 +1658,7 @@ func (c *CoreActivityRecord) Decode(d *Decoder) error {
 	cLog(Yellow, "DALoad: %v", c.DALoad)
 
 	cLog(Cyan, "Decoding Popularity")
-	popularity, err := d.DecodeInteger()
+	popularity, err := d.DecodeIntegerBits(16)
 	if err != nil {
 		return err
 	}
@@ -1666,7 +1666,7 @@ func (c *CoreActivityRecord) Decode(d *Decoder) error {
 	cLog(Yellow, "Popularity: %v", c.Popularity)
 
 	cLog(Cyan, "Decoding Imports")
-	imports, err := d.DecodeInteger()
+	imports, err := d.DecodeIntegerBits(16)
 	if err != nil {
 		return err
 	}
@@ -1675,7 +1675,7 @@ func (c *CoreActivityRecord) Decode(d *Decoder) error {
 
 	// x
 	cLog(Cyan, "Decoding ExtrinsicCount")
-	extrinsicCount, err := d.DecodeInteger()
+	extrinsicCount, err := d.DecodeIntegerBits(16)
 	if err != nil {
 		return err
 	}
@@ -1684,7 +1684,7 @@ func (c *CoreActivityRecord) Decode(d *Decoder) error {
 
 	// z
 	cLog(Cyan, "Decoding ExtrinsicSize")
-	extrinsicSize, err := d.DecodeInteger()
+	extrinsicSize, err := d.DecodeIntegerBits(32)
 	if err != nil {
 		return err
 	}
@@ -1692,7 +1692,7 @@ func (c *CoreActivityRecord) Decode(d *Decoder) error {
 	cLog(Yellow, "ExtrinsicSize: %v", c.ExtrinsicSize)
 
 	cLog(Cyan, "Decoding Exports")
-	exports, err := d.DecodeInteger()
+	exports, err := d.DecodeIntegerBits(16)
 	if err != nil {
 		return err
 	}
@@ -1700,7 +1700,7 @@ func (c *CoreActivityRecord) Decode(d *Decoder) error {
 	cLog(Yellow, "Exports: %v", c.Exports)
 
 	cLog(Cyan, "Decoding AccumulateCount")
-	bundleSize, err := d.DecodeInteger()
+	bundleSize, err := d.DecodeIntegerBits(32)
 	if err != nil {
 		return err
 	}
@@ -1744,7 +1744,7 @@ func (s *ServiceActivityRecord) Decode(d *Decoder) error {
 	var err error
 
 	cLog(Cyan, "Decoding ProvidedCount")
-	providedCount, err := d.DecodeInteger()
+	providedCount, err := d.DecodeIntegerBits(16)
 	if err != nil {
 		return err
 	}
@@ -1752,7 +1752,7 @@ func (s *ServiceActivityRecord) Decode(d *Decoder) error {
 	cLog(Yellow, "ProvidedCount: %v", s.ProvidedCount)
 
 	cLog(Cyan, "Decoding ProvidedSize")
-	providedSize, err := d.DecodeInteger()
+	providedSize, err := d.DecodeIntegerBits(32)
 	if err != nil {
 		return err
 	}
@@ -1760,7 +1760,7 @@ func (s *ServiceActivityRecord) Decode(d *Decoder) error {
 	cLog(Yellow, "ProvidedSize: %v", s.ProvidedSize)
 
 	cLog(Cyan, "Decoding RefinementCount")
-	refinementCount, err := d.DecodeInteger()
+	refinementCount, err := d.DecodeIntegerBits(32)
 	if err != nil {
 		return err
 	}
@@ -1776,7 +1776,7 @@ func (s *ServiceActivityRecord) Decode(d *Decoder) error {
 	cLog(Yellow, "RefinementGasUsed: %v", refinementGasUsed)
 
 	cLog(Cyan, "Decoding Imports")
-	imports, err := d.DecodeInteger()
+	imports, err := d.DecodeIntegerBits(32)
 	if err != nil {
 		return err
 	}
@@ -1784,7 +1784,7 @@ func (s *ServiceActivityRecord) Decode(d *Decoder) error {
 	cLog(Yellow, "Imports: %v", imports)
 
 	cLog(Cyan, "Decoding ExtrinsicCount")
-	extrinsicCount, err := d.DecodeInteger()
+	extrinsicCount, err := d.DecodeIntegerBits(32)
 	if err != nil {
 		return err
 	}
@@ -1792,7 +1792,7 @@ func (s *ServiceActivityRecord) Decode(d *Decoder) error {
 	cLog(Yellow, "ExtrinsicCount: %v", extrinsicCount)
 
 	cLog(Cyan, "Decoding ExtrinsicSize")
-	extrinsicSize, err := d.DecodeInteger()
+	extrinsicSize, err := d.DecodeIntegerBits(32)
 	if err != nil {
 		return err
 	}
@@ -1800,7 +1800,7 @@ func (s *ServiceActivityRecord) Decode(d *Decoder) error {
 	cLog(Yellow, "ExtrinsicSize: %v", extrinsicSize)
 
 	cLog(Cyan, "Decoding Exports")
-	exports, err := d.DecodeInteger()
+	exports, err := d.DecodeIntegerBits(32)
 	if err != nil {
 		return err
 	}
@@ -1808,7 +1808,7 @@ func (s *ServiceActivityRecord) Decode(d *Decoder) error {
 	cLog(Yellow, "Exports: %v", exports)
 
 	cLog(Cyan, "Decoding AccumulateCount")
-	accumulateCount, err := d.DecodeInteger()
+	accumulateCount, err := d.DecodeIntegerBits(32)
 	if err != nil {
 		return err
 	}
